@@ -96,11 +96,26 @@ pub open spec fn element_b(e: Seq<u8>) -> Option<(Seq<u8>, u16)> {
         None => Some((trim_b(e, is_ows()), 1000u16)),
         Some(p) => {
             let w = trim_b(e.subrange(p + 1, e.len() as int), is_ows());
-            if starts_with_b(w, lit("q="@)) { match qv_lenient(w.subrange(2, w.len() as int)) { Some(v) => Some((trim_b(e.subrange(0, p), is_ows()), v)), None => None } } else { None }
+            if w.len() >= 2 && eq_nocase_b(w.subrange(0, 2), lit("q="@)) { match qv_lenient(w.subrange(2, w.len() as int)) { Some(v) => Some((trim_b(e.subrange(0, p), is_ows()), v)), None => None } } else { None }
         }
     }
 }
 pub open spec fn element(qi: Str) -> Option<(Str, u16)> { match element_b(qi.b()) { Some((c, w)) => Some((mk(c), w)), None => None } }
+pub open spec fn q_lc() -> Seq<u8> { seq![0x71u8, 0x3du8] }
+pub open spec fn q_uc() -> Seq<u8> { seq![0x51u8, 0x3du8] }
+/// The two spellings of the ABNF literal "q=".
+pub proof fn lemma_q_prefix()
+    ensures forall|w: Seq<u8>| w.len() >= 2 ==> (#[trigger] eq_nocase_b(w.subrange(0, 2), q_lc()) <==> (starts_with_b(w, q_lc()) || starts_with_b(w, q_uc()))),
+{
+    assert forall|w: Seq<u8>| w.len() >= 2 implies (#[trigger] eq_nocase_b(w.subrange(0, 2), q_lc()) <==> (starts_with_b(w, q_lc()) || starts_with_b(w, q_uc()))) by {
+        let u = w.subrange(0, 2);
+        let q = q_lc();
+        if eq_nocase_b(u, q) { assert(lower(u[0]) == lower(q[0])); assert(lower(u[1]) == lower(q[1])); assert(u[0] == 0x71u8 || u[0] == 0x51u8); assert(u[1] == 0x3du8);
+            if u[0] == 0x71u8 { assert(u =~= q); } else { assert(u =~= q_uc()); } }
+        if starts_with_b(w, q) { assert(u =~= q); }
+        if starts_with_b(w, q_uc()) { assert(u =~= q_uc()); assert(lower(u[0]) == lower(q[0])); }
+    }
+}
 /// On a header value (`HeaderValue::to_str`: visible ASCII and HTAB only) Rust's `trim()` removes exactly OWS.
 pub proof fn lemma_trim_ws_is_ows(s: Seq<u8>)
     requires is_visible(s)
@@ -142,8 +157,9 @@ pub open spec fn prefs(es: Seq<Str>, k: int) -> Option<Prefs> decreases k {
             Some(p) => match element(es[k - 1]) {
                 None => None,
                 Some((coding, w)) =>
-                    if sp_is(coding, "gzip"@) { Some(Prefs { gzip: Some(w), ..p }) }
-                    else if sp_is(coding, "identity"@) { Some(Prefs { identity: Some(w), ..p }) }
+                    // content-coding names are case-insensitive (RFC 7231 3.1.2.1), and so is the ABNF literal "q="
+                    if sp_is_nocase(coding, "gzip"@) { Some(Prefs { gzip: Some(w), ..p }) }
+                    else if sp_is_nocase(coding, "identity"@) { Some(Prefs { identity: Some(w), ..p }) }
                     else if sp_is(coding, "*"@) { Some(Prefs { star: Some(w), ..p }) }
                     else { Some(p) },
             },
@@ -176,7 +192,7 @@ proof fn lemma_prefs_none(es: Seq<Str>, k: int, n: int)
 pub fn should_gzip(headers: &HeaderMap) -> (r: bool)
     ensures /*@C16 #rfc7231_preference*/ r == should_gzip_s(headers),
 //@body
-//@ before "let mut it_ = parts;": let ghost es = sp_split(http::sp_to_str(v.bytes@).unwrap(), ','); proof { lemma_split_visible(v.bytes@, 0x2cu8); reveal_strlit("q="); }
+//@ before "let mut it_ = parts;": let ghost es = sp_split(http::sp_to_str(v.bytes@).unwrap(), ','); proof { lemma_split_visible(v.bytes@, 0x2cu8); reveal_strlit("q="); reveal_strlit("Q="); lemma_q_prefix(); }
 //@ loop 1: invariant it_.rest@.len() <= es.len(), it_.rest@ =~= es.subrange(es.len() - it_.rest@.len(), es.len() as int),
 //@ | /*@C16 #inv_preferences_so_far*/ prefs(es, es.len() - it_.rest@.len()) == Some(Prefs { gzip: gzip_q, identity: identity_q, star: star_q }),
 //@ | decreases it_.rest@.len(),
